@@ -36,6 +36,9 @@ class Obj:
         elif cls == 'Oc':
             names = ['tags']
             vals = {}
+        elif cls == 'Od':
+            names = ['tag']
+            vals = {'seen': None}
         else:
             names = ['k', 'w', 'verbose']
             vals = {'w': 5, 'verbose': False}
@@ -49,9 +52,13 @@ class Obj:
             return ['Oa', _c(self.vals['x']), _c(self.vals['y'])]
         if self.cls == 'Oc':
             return ['Oc', sorted(self.vals['tags'])]
+        if self.cls == 'Od':
+            return ['Od', _c(self.vals['tag']), self.vals['seen']]
         return ['Ob', _c(self.vals['k']), _c(self.vals['w'])]
 
     def repr(self):
+        if self.cls == 'Od':
+            return 'Od(' + sorted_repr(self.vals['tag']) + ')'
         if self.cls == 'Oc':
             return 'Oc(tags=<set: hash order>)'  # not predictable: known finding apo-set-hashseed
         if self.cls == 'Oa':
@@ -207,7 +214,8 @@ class Instance:
 
     @property
     def config_name(self):
-        return f'{self.fname}#{self.part}' if self.part else self.fname
+        stem = self.fname.split('/')[-1]  # the config name is the file name without directories and extension
+        return f'{stem}#{self.part}' if self.part else stem
 
 
 def resolve_part(f, part):
@@ -434,8 +442,9 @@ def build_tasks(case, cfgdir='<cfgdir>', parameter_mode=True):
                 raise ModelError('dangling-input', f'{t.fullname} -> {query}')
             key = found if inp['form'] != 'class' else query
             if key in seen_keys:
-                # a second declaration resolving to an already registered input replaces it silently
-                t.inputs = [i for i in t.inputs if i['key'] != key]
+                # a second declaration resolving to an already registered input silently replaces it in the library;
+                # whether that is an error is not stated anywhere
+                raise OutOfDomain('two declarations resolve to one input')
             seen_keys.add(key)
             t.inputs.append({'key': key, 'idx': idx, 'target': found, 'present': True})
     # acyclic
